@@ -294,7 +294,22 @@ func init() {
 	}
 	H["encoding/json.Marshal"] = func(fr *frame, a []value) value { return tuple{put("J", a[0]), iface{}} }
 	H["encoding/json.MarshalIndent"] = func(fr *frame, a []value) value { return tuple{put("J", a[0]), iface{}} }
-	H["encoding/json.Unmarshal"] = func(fr *frame, a []value) value { return unput(fr, "json", a) }
+	H["encoding/json.Unmarshal"] = func(fr *frame, a []value) value {
+		if !strings.HasPrefix(string(goBytes(a[0])), "J") {
+			return hostErr(fr, "json: invalid character")
+		}
+		return unput(fr, "json", a)
+	}
+	// gob (default node and legacy root format): the repository's two-line
+	// wrappers around encoding/gob are the opaque codec as well
+	H["encoding/gob.Register"] = func(fr *frame, a []value) value { return nil }
+	H["github.com/jrhy/s3db/kv.marshalGob"] = func(fr *frame, a []value) value { return tuple{put("G", a[0]), iface{}} }
+	H["github.com/jrhy/s3db/kv.unmarshalGob"] = func(fr *frame, a []value) value {
+		if !strings.HasPrefix(string(goBytes(a[0])), "G") {
+			return hostErr(fr, "gob: not a gob stream")
+		}
+		return unput(fr, "gob", a)
+	}
 	H["google.golang.org/protobuf/proto.Marshal"] = func(fr *frame, a []value) value { return tuple{put("P", a[0]), iface{}} }
 	H["google.golang.org/protobuf/proto.Unmarshal"] = func(fr *frame, a []value) value { return unput(fr, "proto", a) }
 	H["google.golang.org/protobuf/proto.Clone"] = func(fr *frame, a []value) value { return deepCopy(a[0]) }
